@@ -184,6 +184,20 @@ def run_one(ch, env):
            "probes": {"mode_update": int(update), "mode_clobber": int(not update), "prior_state": int(bool(prior_tiles)), "depth0": int(depth == 0),
                       "concurrent_samplers": int(concurrent), "format_override": int(override is not None)}}
 
+    # one run in three first samples another layer (other depth and coordinate system) in the same process: state that
+    # toasty keeps between sampling operations (caches keyed too coarsely) then shows up in the run under test
+    warm = ch.draw(3, kind="warm_up") == 2
+    res["probes"]["warm_up_sampling"] = int(warm)
+    if warm:
+        import tempfile
+        other = ToastCoordinateSystem.PLANETARY if coordsys == ToastCoordinateSystem.ASTRONOMICAL else ToastCoordinateSystem.ASTRONOMICAL
+        # same layer in the other coordinate system, or another layer in the same one
+        wdepth, wsys = ((depth, other), (1 if depth != 1 else 2, coordsys), (depth, other))[ch.draw(3, kind="warm_kind")]
+        wdir = os.path.join(d, "warmup")
+        ttoast.sample_layer(PyramidIO(wdir, default_format=default_fmt), Sampler(kind, 2.0, 1.0, 0.0), wdepth, coordsys=wsys, parallel=1)
+        import shutil
+        shutil.rmtree(wdir, ignore_errors=True)
+
     sim = Sim(ch, step_cap=80000)
     sim.rootdir = d
     sim.write_yields = (2, 1, 0)[ch.draw(3, kind="write_yields")]
